@@ -37,7 +37,10 @@ func handleRequestID(r *http.Request, w http.ResponseWriter, cfg config.LoggingC
 		return ""
 	}
 
-	requestID := strings.TrimSpace(r.Header.Get(header))
+	// (only the optional white space of a field value - space and tab - is not part of the ID;
+	// strings.TrimSpace would also cut Unicode spaces such as U+00A0 off the value echoed to the
+	// client, while the backend gets the header as it was sent)
+	requestID := strings.Trim(r.Header.Get(header), " \t")
 	if requestID == "" {
 		requestID = generateIdentifier("req")
 		r.Header.Set(header, requestID)
@@ -51,7 +54,7 @@ func handleTraceID(r *http.Request, w http.ResponseWriter, cfg config.LoggingCon
 		return ""
 	}
 
-	traceID := strings.TrimSpace(r.Header.Get(header))
+	traceID := strings.Trim(r.Header.Get(header), " \t")
 	if traceID == "" {
 		traceID = generateIdentifier("trace")
 		r.Header.Set(header, traceID)
